@@ -104,6 +104,15 @@ class BasePath(safe_str.safe_string):
             path = path[1:]
         return drive, path, isdir
 
+    @staticmethod
+    def __resolved(suffix):
+        # A suffix that's already part of a path (or was read from a directory
+        # or a saved file) has had its `~` expanded if it was meant to be; one
+        # that starts with `~` now is a name and has to stay one.
+        if suffix.startswith('~'):
+            return posixpath.curdir + posixpath.sep + suffix
+        return suffix
+
     @classmethod
     def __join(cls, path1, path2):
         return cls.__normpath(posixpath.join(path1, path2))
@@ -115,12 +124,14 @@ class BasePath(safe_str.safe_string):
 
     def cross(self, env):
         cls = env.target_platform.Path
-        return cls(self.suffix, self.root, False, self.directory)
+        return cls(self.__resolved(self.suffix), self.root, False,
+                   self.directory)
 
     def as_directory(self):
         if self.directory:
             return self
-        return type(self)(self.suffix, self.root, self.destdir, True)
+        return type(self)(self.__resolved(self.suffix), self.root,
+                          self.destdir, True)
 
     def has_drive(self):
         return (self.root == Root.absolute and
@@ -130,7 +141,8 @@ class BasePath(safe_str.safe_string):
         if not self.suffix:
             raise ValueError('already at root')
         drive, path = ntpath.splitdrive(self.suffix)
-        return type(self)(drive + posixpath.dirname(path), self.root,
+        return type(self)(self.__resolved(drive + posixpath.dirname(path)),
+                          self.root,
                           self.destdir, directory=True)
 
     def append(self, path):
@@ -138,20 +150,23 @@ class BasePath(safe_str.safe_string):
         if not posixpath.isabs(path):
             drive, base = ntpath.splitdrive(self.suffix)
             path, _ = self.__join(base, path or '.')
+            path = self.__resolved(path)
         return type(self)(drive + path, self.root, self.destdir, isdir)
 
     def ext(self):
         return posixpath.splitext(self.suffix)[1]
 
     def addext(self, ext):
-        return type(self)(self.suffix + ext, self.root, self.destdir,
+        return type(self)(self.__resolved(self.suffix + ext), self.root,
+                          self.destdir,
                           self.directory)
 
     def stripext(self, replace=None):
         name = posixpath.splitext(self.suffix)[0]
         if replace:
             name += replace
-        return type(self)(name, self.root, self.destdir, self.directory)
+        return type(self)(self.__resolved(name), self.root, self.destdir,
+                          self.directory)
 
     def splitleaf(self):
         return self.parent(), self.basename()
@@ -182,7 +197,8 @@ class BasePath(safe_str.safe_string):
         return self.__localize(result, localize)
 
     def reroot(self, root=Root.builddir):
-        return type(self)(self.suffix, root, self.destdir, self.directory)
+        return type(self)(self.__resolved(self.suffix), root, self.destdir,
+                          self.directory)
 
     def to_json(self):
         suffix = self.suffix
@@ -199,7 +215,7 @@ class BasePath(safe_str.safe_string):
             base = Root[data[1]]
         except KeyError:
             base = InstallRoot[data[1]]
-        return cls(data[0], base, data[2])
+        return cls(cls.__resolved(data[0]), base, data[2])
 
     def realize(self, variables, executable=False, variable_sep=True,
                 localize=True):
